@@ -130,6 +130,48 @@ func c06(c *Ctx) {
 			}
 		}
 	}
+	// mixed carriers in one []any: a decimal.Decimal (or another carrier) stands first, other carriers
+	// follow; every position read with First / Last / Index
+	{
+		mix := []*D{h.Dec(15, -1), h.Int("int8", -7), h.IntBig("uint64", new(big.Int).Lsh(big.NewInt(1), 63)), h.FloatD(0.1), h.PtrTo(h.Int("int", 9)), h.Dec(25, -2), func() *D { d := h.Int("int", 4); d.Named = true; return d }()}
+		vals := []*big.Rat{big.NewRat(3, 2), big.NewRat(-7, 1), new(big.Rat).SetInt(new(big.Int).Lsh(big.NewInt(1), 63)), ratCE(h.FloatD(0.1).Coef, h.FloatD(0.1).Exp), big.NewRat(9, 1), big.NewRat(1, 4), big.NewRat(4, 1)}
+		for rot := 0; rot < len(mix); rot++ {
+			var xs []*D
+			var vs []*big.Rat
+			for i := range mix {
+				xs, vs = append(xs, mix[(rot+i)%len(mix)]), append(vs, vals[(rot+i)%len(mix)])
+			}
+			doc := h.Obj("a", h.SliceAny(xs...))
+			for i := range xs {
+				ec := c.AddEval(fmt.Sprintf("$.a.Index(%d)", i), doc, "mixed-carriers", false, true)
+				ec.Check = exactly(vs[i])
+			}
+			ec := c.AddEval("$.a.First()", doc, "mixed-carriers", false, true)
+			ec.Check = exactly(vs[0])
+			ec = c.AddEval("$.a.Last()", doc, "mixed-carriers", false, true)
+			ec.Check = exactly(vs[len(vs)-1])
+		}
+	}
+	// histories in a process of its own: a NIL numeric pointer is met first, then numbers behind the same
+	// pointer type (and the other way round); the number comes out as its decimal every time
+	{
+		var qs []string
+		var sts [][]*D
+		np, p5, p0 := h.NilPtr(), h.PtrTo(h.Int("int", 5)), h.PtrTo(h.Int("int", 0))
+		for _, q := range []string{"$.k", "$.k.Add(1)", "$.a.Last()", "$.os.v", "$.S.K"} {
+			mk := func(p *D) *D {
+				return h.Obj("k", p, "a", h.SliceAny(p), "os", h.SliceAny(h.Obj("v", p), h.Obj("v", h.Int("int", 1))), "S", &D{Tag: "st", Fs: []h.Field{{Name: "K", Exported: true, Iface: false, V: p}}})
+			}
+			for _, order := range [][]*D{{np, p5, p0}, {p5, np, p5}, {np, np, p0, p5}} {
+				var states []*D
+				for _, p := range order {
+					states = append(states, mk(p))
+				}
+				qs, sts = append(qs, q), append(sts, states)
+			}
+		}
+		c.runReuseIn("nil-pointer-first", qs, sts, true)
+	}
 	// booleans and non-numeral strings are returned unchanged
 	for _, d := range []*D{h.Bool(true), h.Bool(false), h.Str("abc"), h.Str(""), h.Str("1x"), h.NStr("named")} {
 		dd := d
